@@ -76,6 +76,33 @@ def run(tier):
             kinds['accumulate_digit'] += 1; pairs.append((info.get('type'), info.get('maximum')))
             R.ob(ok=not probs, key=('acc', fn['disp']))
             for p in probs: R.violation('G-range', 'contrib/integer.hpp::internal::accumulate_digit', '%s [Integer = %s, Maximum = %s]' % (p, info.get('type'), info.get('maximum')), key=('G', fn['disp'], p))
+        elif fn['q'] == T + 'internal::is_digit':
+            # D-digit: the digit test of the hand-written scanners, exactly, over all 256 values of a (signed) char
+            from . import c10
+            try:
+                acc, rej = c10.char_fn_sets(idb, fn)
+                probs = [] if acc == ((48, 57),) and c10.iunion(acc, rej) == ((0, 255),) else ['is_digit accepts the bytes %s, the decimal digits are 48..57' % c10.ishow(acc)]
+            except c10.Unmodelled as e:
+                R.broke('is_digit: %s' % e); continue
+            kinds['digit'] += 1
+            R.ob(ok=not probs, key=('digit', fn['disp']))
+            for p in probs: R.violation('D-digit', 'contrib/integer.hpp::internal::is_digit', p, key=('D', p))
+        elif fn['n'] == 'match' and (fn.get('cls') or {}).get('tn') in (T + 'maximum_rule', T + 'maximum_rule_with_action'):
+            # D-maximum: the matcher a bounded rule hands its input to is instantiated for the rule's own type and maximum (both apply modes)
+            from ..exc import walk
+            a = (fn.get('cls') or {}).get('a') or []
+            want = (a[0].get('s'), str(a[1].get('v'))) if len(a) == 2 else None
+            probs = []
+            cs = walk(fn.get('body'), lambda n: n.get('k') == 'call' and 'with_maximum' in (n.get('cn') or ''), [])
+            if want is None or not cs: R.broke('maximum rule %s: no call of a matcher with maximum found' % fn['disp'][:100]); continue
+            for c in cs:
+                ca = [x for x in (c.get('cta') or []) if x.get('k') in ('type', 'int')]
+                if not (len(ca) >= 2 and ca[-1].get('k') == 'int' and ca[-2].get('k') == 'type'): continue      # a matcher of another shape (maximum as an argument): not judged by this clause
+                got = (ca[-2].get('s'), str(ca[-1].get('v')))
+                if got != want: probs.append('hands the input to %s< %s >, the rule is for < %s, %s >: values between the two maxima are accepted' % (c.get('cn'), ', '.join(map(str, got or ('?',))), want[0], want[1]))
+            kinds['maximum'] += 1
+            R.ob(ok=not probs, key=('maximum', fn['disp']))
+            for p in probs: R.violation('D-maximum', 'contrib/integer.hpp::' + fn['cls']['tn'].replace(T, '') + '::match', '%s [apply_mode::%s]' % (p, 'action' if (fn.get('ta') or [{}])[0].get('v') else 'nothing / simple signature'), key=('M', fn['disp'], p))
         elif fn['q'] == T + 'internal::convert_negative':
             probs = ranges.check_convert_negative(idb, fn)
             kinds['convert_negative'] += 1
@@ -92,7 +119,7 @@ def run(tier):
             R.ob(ok=not probs, key=('act', fn['disp']))
             for p in probs: R.violation('G-action', 'contrib/integer.hpp::' + fn['q'].replace(T, '').split('<')[0], p, key=('G', fn['disp'], p))
     R.cov['obligations_by_kind'] = dict(kinds); R.cov['type_maximum_pairs'] = sorted(set(map(str, pairs)))[:60]
-    for k, fl in (('syntax-type', 6), ('scanner', 12), ('accumulate_digit', 40), ('convert_negative', 4), ('forwarder', 16), ('action', 8)):
+    for k, fl in (('syntax-type', 6), ('scanner', 12), ('accumulate_digit', 40), ('convert_negative', 4), ('forwarder', 16), ('action', 8), ('digit', 1), ('maximum', 10)):
         if kinds.get(k, 0) < fl: R.broke('only %d %s obligations (floor %d)' % (kinds.get(k, 0), k, fl))
     R.assumptions = ['accumulate_digit is verified per instantiated (type, maximum) pair (listed); its body is parametric in both',
                      'scanners are explored on all byte-class strings up to length %d (classes = what the code can distinguish); the value dimension is covered by (b)' % maxlen,
